@@ -100,3 +100,40 @@ Theorem C10_alt_loop_guard_is_code : forall st : alt_st,
   ((a_count st <? MAX_ALTERNATIVES) && (a_seq st - 1 <? MAX_VALID_ALTERNATIVES))%bool.
 Proof. exact alt_loop_guard_tie. Qed.
 Print Assumptions C10_alt_loop_guard_is_code.
+
+(* tie to the source, stage 3c: Calculator::alternativesRouting as a whole - counters, the derivation of the maximum travel
+   time of the recalculations, the initial combinations, the loop over the combinations (caps, try / catch, duplicate
+   test, pushes) and the result - is read from alternatives_routing.cpp AS IT IS NOW by tools/gen_loops.py (gen/Alt.v)
+   and executed by the interpreter of Alt.v; the model computes the same *)
+Require Import TrV.Alt.
+From TrV Require Import Proofs.LoopsTie.
+Theorem C10_alternatives_max_travel_time_is_code : forall e fuel R (kont : amach -> outcome R) m,
+  arun e fuel GA.gen_alt_maxtt R kont m =
+  kont (on_l (fun l => ls_al_altp (alt_maxtt (ae_p e) (al_first l)) (ls_al_maxtt (alt_maxtt (ae_p e) (al_first l)) l)) m).
+Proof. exact alt_maxtt_tie. Qed.
+Print Assumptions C10_alternatives_max_travel_time_is_code.
+(* one iteration of the loop, when the recalculation returns a route: the state after the generated loop body is the one
+   Calc.alt_loop continues with (`alt_loop_S`); for every continuation that only looks at the loop state, the caps'
+   operand, the recalculation parameters' maximum travel time and the index *)
+Theorem C10_alternatives_step_is_code : forall d cs p acc egr fuel R (kk : amach -> outcome R) m r u,
+  respects kk -> al_maxalt (am_l m) = MAX_ALTERNATIVES -> alt_caps (am_st m) = true ->
+  cur_calc d cs p acc egr m = Ok (r, u) ->
+  arun {| ae_d := d; ae_cs := cs; ae_p := p; ae_acc := acc; ae_egr := egr |} fuel GA.gen_alt_body R kk m =
+  kk {| am_st := alt_step_ok d (am_st m) r (cur_comb m); am_l := am_l m |}.
+Proof. exact alt_body_ok. Qed.
+Print Assumptions C10_alternatives_step_is_code.
+Theorem C10_alternatives_loop_is_code : forall d cs p acc egr fuel R (after : amach -> outcome R) (after' : alt_st -> outcome R),
+  (forall m, after m = after' (am_st m)) ->
+  forall f m, al_maxalt (am_l m) = MAX_ALTERNATIVES ->
+  aforall (fun kk mm => arun {| ae_d := d; ae_cs := cs; ae_p := p; ae_acc := acc; ae_egr := egr |} fuel GA.gen_alt_body R kk mm) after f m =
+  match alt_loop f d cs p (al_altp (am_l m)) acc egr (q_except_lines p) (am_st m) (al_i (am_l m)) with
+  | Ok st' => after' st'
+  | o => pass_error o
+  end.
+Proof. exact alt_forall_tie. Qed.
+Print Assumptions C10_alternatives_loop_is_code.
+Theorem C10_alternatives_is_code : forall d cs p acc egr l0,
+  run_alt GA.gen_alt_skel {| ae_d := d; ae_cs := cs; ae_p := p; ae_acc := acc; ae_egr := egr |} ALT_FUEL
+          {| am_st := alt_st_empty; am_l := l0 |} = alternatives d cs p acc egr.
+Proof. exact alternatives_skel_tie. Qed.
+Print Assumptions C10_alternatives_is_code.
